@@ -8,6 +8,18 @@ props = [json.loads(l) for l in open(os.path.join(V, "properties.jsonl"))]
 DIFF = "bounded-exhaustive grammar/derivation enumeration executed on the real code, compared point by point with a reference interpreter"
 META = "bounded-exhaustive enumeration of identity-schema instantiations x documents executed on the real code; metamorphic oracle (implementation against itself)"
 claimed = {
+ "C11": ("bounded-exhaustive enumeration of string constructs x strings x numeric arguments on the real code; metamorphic renaming oracle (a,b,c -> 1-4 byte code points, order preserving) + reference comparison on the ASCII point",
+         "every string-handling construct on every string over {a,b,c} up to the stated length with all numeric arguments in -1..6 is evaluated as written and under two injective order-preserving renamings to multi-byte code points, in literal and document delivery; the result must rename the same way, be valid UTF-8, and the ASCII point must agree with the reference",
+         "trusts the renaming harness (60 lines) and, for the differential part, the reference's string functions",
+         "4/C11"),
+ "C13": ("bounded-exhaustive enumeration of key sequences executed on the real code; oracle computed in the harness (unique stable order, permutation of tagged identities, extremal keys)",
+         "all arrays up to length 14/16 over two keys, 6/8 over three keys, 4/5 over the ten-value spelling alphabet and complete periodic/inversion families for lengths 13..64, with number and string keys, through sort, sort_by, min, max, min_by, max_by; input arrays carry spare capacity with sentinels and are snapshotted",
+         "trusts sort.SliceStable of the Go standard library as the stable-order oracle",
+         "4/C13"),
+ "C14": ("bounded-exhaustive enumeration of carrier configurations (all 14 Go numeric kinds, all ordered pairs of kinds) x values x expression forms on the real code; metamorphic oracle against the all-json.Number configuration",
+         "for every expression form and value (pair) the number leaves are carried by every Go kind able to hold them exactly; the outcome must equal the json.Number outcome by value",
+         "values are dyadic rationals; divisions with a non-dyadic quotient and size-driving/compound forms with |x| >= 256 are excluded as not exactly representable in every carrier",
+         "4/C14"),
  "C02": (DIFF,
          "for every built-in every argument count and the full Cartesian product of a typed value alphabet over the argument positions (literal and document delivery; expression-reference menus incl. let-bound variables) is called and compared with the reference's value / error category",
          "trusts the per-function table of DESIGN.md appendix A as implemented in mc/ref/funcs.go; abstentions are counted in the evidence",
